@@ -4,12 +4,22 @@ Explorer A over session histories x placement of clock events (pauses shorter th
 jumps to the next deadline) x peer loss (EOF / reset / failed write) / shutdown at every position.
 The oracle is a reference idle automaton computed from *observable* instants in virtual time:
 connection open, application-instance creation (= request head complete), client-parsed end of
-response, server close, handler completion.
+response, return of a WebSocket application, server close, handler completion.
+
+WebSocket sessions: a WebSocket request is in progress until its application has returned and the
+socket is open from the accept until the application closes it or returns.  Histories in which the
+APPLICATION ends the session (rejects the handshake with 403, denies it with websocket.http.response,
+complete or truncated, returns undecided, or accepts, closes and returns) and the client then stays
+silent - no echoed Close frame, no EOF - over HTTP/1.1 and over HTTP/2 extended CONNECT: afterwards
+nothing is in progress, so the connection is closed by the server (HTTP/1.1: at any time, it cannot be
+reused) or idles out after keep_alive_timeout (HTTP/2), at once at shutdown; after peer loss the
+handler finishes.
 
 Clauses
   idle-never-closed     final quiescence, peer alive, nothing in progress, yet no timer armed and not closed
   idle-close-late/early server closed an idle reusable connection at t != idle_start + T (exact virtual instants)
   closed-while-busy     server closed between head completion and end of response / while a WebSocket is open
+                        (accepted, neither closed by its application nor returned)
   not-closed-at-shutdown idle connection not closed at once when shutdown had begun
   handler-not-finished  peer gone or server closed, every application returned, but handler/transport/tasks remain
   handler-lingers       ... finished, but only after virtual time passed (a timer was needed)
@@ -18,7 +28,8 @@ from __future__ import annotations
 
 from typing import Any, List, Optional
 
-from mc.clients import OP_TEXT, h1_request, h2_request_headers, make_client, ws_frame, ws_h1_handshake
+from mc.clients import (OP_TEXT, h1_request, h2_request_headers, make_client, ws_frame, ws_h1_handshake,
+                        ws_h2_headers)
 from mc.explore import V
 from mc.harness import internal_errors, std_execute
 
@@ -26,7 +37,8 @@ ID = "C07"
 LEVEL = "model_checking"
 TECHNIQUE = ("stateless deviation-bounded exploration of the real connection handler under a virtual clock; "
              "reference idle-timer automaton over observed virtual instants")
-RULE = ("scenario = engine x session history x keep_alive_timeout x (clock placement | peer-loss kind | shutdown); "
+RULE = ("scenario = engine x session history (HTTP/1.1 keep-alive and pipelines, HTTP/2 streams, error responses, "
+        "WebSocket sessions ended by either side over HTTP/1.1 and HTTP/2) x keep_alive_timeout x (clock placement | peer-loss kind | shutdown); "
         "clock pauses/ticks, gate releases and the fault are separate sources interleaved at every position within "
         "bounds; non-trivial = instance ran and a non-default choice was taken; distinct by observation digest")
 ASSUMPTIONS = [
@@ -34,7 +46,8 @@ ASSUMPTIONS = [
     "a timer firing at the very instant a request head arrives may legitimately win (not judged)",
     "environment model bound to real sockets by ./check selftest",
 ]
-BOUNDS_DOC = {"quick": "M<=1, S<=2, R=0 plus trio M=0,S<=2,R<=2; T in {4}", "thorough": "M<=2, S<=3, trio R<=1; T in {0.5, 4}"}
+BOUNDS_DOC = {"quick": "M<=1, S<=2, R=0 plus trio M=0,S<=2,R<=2; T in {4}; %d session histories x (clock | 4 loss/shutdown kinds)",
+              "thorough": "M<=2, S<=3, trio R<=1; T in {0.5, 4}"}
 BUDGET = {"quick": 300, "thorough": 1800}
 
 OK200 = {"type": "http.response.start", "status": 200, "headers": [(b"content-length", b"2")]}
@@ -42,6 +55,21 @@ BODY = {"type": "http.response.body", "body": b"ok", "more_body": False}
 RESPOND = [("recv_body",), ("send", OK200), ("send", BODY), ("recv_until_disconnect",)]
 GATED = [("recv_body",), ("gate", "g1"), ("send", OK200), ("send", BODY), ("recv_until_disconnect",)]
 NOSEND = [("recv_body",), ("gate", "g1"), ("return",)]
+
+# WebSocket sessions the APPLICATION ends before it returns; the client stays silent afterwards (it neither echoes the
+# Close frame nor closes), so releasing the connection is entirely up to the server
+WS_ACCEPT = {"type": "websocket.accept"}
+WS_REJECT = [("recv",), ("send", {"type": "websocket.close"}), ("return",)]  # 403
+WS_DENY = [("recv",), ("send", {"type": "websocket.http.response.start", "status": 401, "headers": [(b"content-length", b"2")]}),
+           ("send", {"type": "websocket.http.response.body", "body": b"no"}), ("return",)]
+WS_DENY_PARTIAL = [("recv",), ("send", {"type": "websocket.http.response.start", "status": 401, "headers": []}),
+                   ("send", {"type": "websocket.http.response.body", "body": b"n", "more_body": True}), ("return",)]
+WS_APP_CLOSE = [("recv",), ("send", WS_ACCEPT), ("gate", "g1"), ("send", {"type": "websocket.send", "text": "bye"}),
+                ("send", {"type": "websocket.close", "code": 1000}), ("return",)]
+WS_EXIT = [("recv",), ("return",)]  # returns with the handshake undecided: 500
+WS_H1 = ({"carrier": "ws/h1"}, [("data", 0, ws_h1_handshake(b"/w"))])
+WS_H2 = ({"carrier": "ws/h2", "tls": True, "alpn": "h2"},
+         [("cmd", 0, "preface"), ("cmd", 0, "ws_open", 1), ("cmd", 0, "headers", 1, ws_h2_headers(b"/w"), False)])
 
 BIGPOST = h1_request(b"POST", b"/a", chunked=[b"c%d" % i for i in range(14)])
 GET = h1_request(b"GET", b"/a")
@@ -68,6 +96,8 @@ HISTORIES = {
                       {"http": [("send", OK200), ("send", BODY)]}, {}),
     "gated": ({"carrier": "h1"}, [("data", 0, GET)], {"http": GATED}, {}),
     "pipe_gated": ({"carrier": "h1"}, [("data", 0, GET + GET2)], {"http:/a": GATED, "http:/b": RESPOND}, {}),
+    # the mirror image: the first answers at once, the second (already buffered when the first completes) is gated
+    "pipe_gated2": ({"carrier": "h1"}, [("data", 0, GET + GET2)], {"http:/a": RESPOND, "http:/b": GATED}, {}),
     "pipe_nosend": ({"carrier": "h1"}, [("data", 0, GET + GET2)], {"http:/a": NOSEND, "http:/b": RESPOND}, {}),
     "badhost": ({"carrier": "h1"}, [("data", 0, h1_request(b"GET", b"/a", host=b"other"))], {"http": RESPOND},
                 {"server_names": ["hypercorn"]}),
@@ -81,6 +111,17 @@ HISTORIES = {
                    [("cmd", 0, "preface"),
                     ("cmd", 0, "headers", 1, h2_request_headers(b"GET", b"/a", authority=b"other"), True)],
                    {"http": RESPOND}, {"server_names": ["hypercorn"]}),
+    # the application ends the WebSocket itself and returns, over HTTP/1.1 (the upgraded connection cannot be reused:
+    # the server closes it) and over HTTP/2 extended CONNECT (the connection has no open stream left: it idles out)
+    "ws_reject": (*WS_H1, {"websocket": WS_REJECT}, {}),
+    "ws_deny": (*WS_H1, {"websocket": WS_DENY}, {}),
+    "ws_deny_partial": (*WS_H1, {"websocket": WS_DENY_PARTIAL}, {}),
+    "ws_app_close": (*WS_H1, {"websocket": WS_APP_CLOSE}, {}),
+    "ws_exit": (*WS_H1, {"websocket": WS_EXIT}, {}),
+    "ws_h2_reject": (*WS_H2, {"websocket": WS_REJECT}, {}),
+    "ws_h2_deny": (*WS_H2, {"websocket": WS_DENY}, {}),
+    "ws_h2_app_close": (*WS_H2, {"websocket": WS_APP_CLOSE}, {}),
+    "ws_h2_exit": (*WS_H2, {"websocket": WS_EXIT}, {}),
     # HTTP/2 by prior knowledge (cleartext preface): no stream is ever opened / one request is served
     "h2pk_none": ({"carrier": "h2pk"}, [("cmd", 0, "preface")], {"http": RESPOND}, {}),
     "h2pk_one": ({"carrier": "h2pk"},
@@ -122,6 +163,7 @@ HISTORIES = {
                          "http:/slow": [("recv_body",), ("gate", "never"), ("send", OK200), ("send", BODY)]}, {}),
 }
 FAULTS = ["eof", "reset", "wfail", "terminate"]
+BOUNDS_DOC["quick"] %= len(HISTORIES)
 
 
 def scenarios(tier: str) -> List[Any]:
@@ -223,30 +265,40 @@ def oracle(w: Any, params: Any) -> List[dict]:
     t_term = next((t for t, e in fired if e[0] == "terminate"), None)
     resps = _responses(w)
     insts = [i for i in w.instances if i.type in ("http", "websocket")]
-    ws_open = any(i.type == "websocket" and any(s[2].get("type") == "websocket.accept" and s[3] == "ok" for s in i.sends)
-                  for i in insts)
+    # A WebSocket request is in progress from its head until its application has returned; the WebSocket itself is
+    # open from the accepted handshake until the application closes it or returns.  Once every WebSocket application
+    # has returned nothing is in progress any more (the client staying silent does not keep the connection busy).
+    ws_insts = [i for i in insts if i.type == "websocket"]
+    ws_running = any(i.outcome == "running" for i in ws_insts)
+    ws_done = [i.t_end for i in ws_insts if i.outcome != "running" and i.t_end is not None]
+    # WebSocket frames that arrive before the application has decided the handshake make the stream answer 400 by
+    # itself: the stream-generated error response of KF-C07-stream-error-no-close (never followed by a close; its
+    # witness histories are badhost / badws).  It is reported under its own key suffix so that the known-findings entry
+    # can name it (no application here answers 400, so the status identifies it).
+    ws_refused = bool(ws_insts) and any(r["complete"] and r["status"] == 400 for r in resps)
     http_insts = [i for i in insts if i.type == "http"]
     # requests in progress: instances whose response the client has not seen complete
     n_complete_app = sum(1 for r in resps if r["complete"] and r["status"] not in (400, 404) or
                          (r["complete"] and r["status"] in (400, 404) and False))
     in_progress = len(http_insts) > sum(1 for r in resps if r["complete"] and _from_app(r, name))
     tc = rec.closed_at
-    tag = f"{carrier}:{name}"
+    tag = f"{carrier}:{name}" + (":badws-frame-before-accept" if ws_refused else "")
+    cl_h1 = rec.client.h2 is None
 
     # ---- idle clauses (only while the peer is alive)
     if t_loss is None or (tc is not None and tc < t_loss):
         ends = [rec.opened_at] + [r["t_end"] for r in resps if r["complete"] and r["t_end"] is not None]
         if tc is None:
-            if not in_progress and not ws_open and kind == "idle":
+            if not in_progress and not ws_running and kind == "idle":
                 # spare ticks remain in the clock source, so an armed timer would have fired
                 out.append(V("idle-never-closed", tag, f"open since {rec.opened_at}, last activity {max(ends)}, now {w.final_time}"))
-            if t_term is not None and not in_progress and not ws_open:
+            if t_term is not None and not in_progress and not ws_running:
                 out.append(V("not-closed-at-shutdown", tag, f"terminate at {t_term}, now {w.final_time}"))
         else:
             started_before = [i for i in http_insts if i.t_start < tc or (i.t_start == tc and False)]
             done_before = [r for r in resps if r["complete"] and _from_app(r, name) and r["t_end"] <= tc]
             busy = len(started_before) > len(done_before)
-            ws_busy = any(i.type == "websocket" and i.t_start < tc for i in insts) and ws_open
+            ws_busy = any(a is not None and a < tc and (o is None or tc < o) for a, o in map(_ws_open_interval, ws_insts))
             crashed = any(i.outcome in ("raised:AppCrash",) or (i.outcome == "returned" and not any(
                 s[2].get("type") == "http.response.body" for s in i.sends)) for i in http_insts)
             if (busy or ws_busy) and not crashed and t_term is None:
@@ -255,6 +307,14 @@ def oracle(w: Any, params: Any) -> List[dict]:
                 last = max(e for e in ends if e <= tc)
                 announced = any(r["close"] for r in resps if r["complete"] and r["t_end"] == last) or any(
                     r["status"] in (400, 404, 500) for r in resps if r["complete"] and r["t_end"] == last)
+                # an HTTP/1.1 connection that carried a WebSocket request cannot be reused: once that application has
+                # returned the server may close whenever it likes (it must close by idle expiry: idle-never-closed)
+                announced = announced or (cl_h1 and any(t <= tc for t in ws_done))
+                # over HTTP/2 the stream of a finished WebSocket is gone once its application has returned, which may
+                # be later than the end of stream the client saw: lateness is judged from the later instant, earliness
+                # from the earlier one
+                last_seen = last
+                last = max([last] + [t for t in ws_done if t <= tc])
                 same_instant_head = any(i.t_start == tc for i in insts)
                 if not announced and not same_instant_head:
                     want = last + t_keep
@@ -270,7 +330,7 @@ def oracle(w: Any, params: Any) -> List[dict]:
                         late_from = max(last, t_term) if not orphan else max(max(orphan), t_term)
                     if tc > max(want, late_from) + 1e-9:
                         out.append(V("idle-close-late", tag, f"closed at {tc}, idle since {last}, T={t_keep}, want {want}"))
-                    elif tc < want - 1e-9:
+                    elif tc < want - (last - last_seen) - 1e-9:
                         out.append(V("idle-close-early", tag, f"closed at {tc}, idle since {last}, T={t_keep}, want {want}"))
 
     # ---- dead clauses
@@ -288,6 +348,16 @@ def oracle(w: Any, params: Any) -> List[dict]:
                          f"gone at {t_gone}, apps done {t_apps}, handler done {rec.handler_done_at}"))
     out.extend(internal_errors(w))
     return out
+
+
+def _ws_open_interval(i: Any) -> tuple:
+    """(accepted at, over at) of a WebSocket instance: open from the accept until the application's own
+    websocket.close or its return, whichever is first (None: never accepted / still open)."""
+    acc = next((s[1] for s in i.sends if s[2].get("type") == "websocket.accept" and s[3] == "ok"), None)
+    over = [s[1] for s in i.sends if s[2].get("type") == "websocket.close" and s[3] == "ok" and s[1] is not None]
+    if i.outcome != "running" and i.t_end is not None:
+        over.append(i.t_end)
+    return acc, (min(over) if over else None)
 
 
 def _from_app(r: dict, name: str) -> bool:
